@@ -90,7 +90,7 @@ def theorems_of(module_file: str):
     return names
 
 
-AUTO_GENERATED = re.compile(r"^(eq_\d+|eq_def|congr_simp|.*match_\d+.*|.*_sunfold|.*_unsafe_rec)$")
+AUTO_GENERATED = re.compile(r"^(eq_\d+|eq_def|congr_simp|inj|injEq|sizeOf_spec|noConfusion\w*|ctorIdx\w*|.*match_\d+.*|.*_sunfold|.*_unsafe_rec)$")
 PINS_DIR = os.path.join(paths.LEAN, "pins")
 
 
